@@ -1,17 +1,27 @@
 """C19 -- Stats count every request once and keep bounded samples.
 
 Decided:
-  R19.a  StatsMiddleware.request: the ``...add(hit)`` call runs exactly once after next() on the normal
-         and on the exceptional path (it sits in the ``finally`` of the ``try`` holding next(), outside
-         loops); the handler re-raises; the status key comes from status_code of the result / code of the
-         exception (class name fallback) and the hit is filed under route_hits[_route][<status key>];
-         the Hit fields are filled in the namedtuple's declared order;
-  R19.b  get_and_reset_stats_dict computes its report before reset(); reset() rebinds route_hits to a
-         fresh mapping; the reported count is the reservoir's total_count;
+  R19.a  StatsMiddleware.request: the ``...add(hit)`` call(s) run exactly once after next() on the normal
+         and on the exceptional path (outside loops); the handler re-raises; the status key comes from
+         status_code of the result / ``getattr(exc, 'code', <class name>)`` of the exception; the hit is filed
+         under self.route_hits[_route][<status key>] (receiver read through named temporaries) and
+         ``self.route_hits`` is read *after* next() ran (reset() re-binds it: a table captured before would be
+         an orphan); the recorded value is Hit(...) with the fields in the namedtuple's declared order
+         (positional or keyword);
+  R19.b  get_and_reset_stats_dict computes its report (a get_stats_dict call) before reset() on every path and
+         returns that report (or a dict built over it); reset() rebinds route_hits to a fresh mapping; the
+         constructor initialises through reset() or such a binding; in the per-status dict that
+         _get_route_stats *reports* (followed through ``ret[k] = cur = {}`` aliases, dict comprehensions,
+         dict()/{**} copies and module-level helpers) the 'count' entry taken from total_count is the last
+         writer of that key (describe() brings its own 'count');
   R19.c  Reservoir: _total_count is incremented exactly once on every path of add(); every append on
-         _data and every indexed store is entailed in-bounds by its path condition (difference constraints);
-         resize() leaves len(_data) <= _cap; only the value passed to add() is stored; nobody outside
-         Reservoir's own methods writes _data/_cap/_total_count.
+         _data and every indexed store is entailed in-bounds by its path condition (difference constraints
+         over terms with named temporaries / aliases of self._data looked through) and is the first write of the
+         call (the facts are stale after a write); resize() leaves len(_data) <= _cap (bound test, possibly via a
+         named flag, or truncation); only the value passed to add() is stored; nobody outside Reservoir's own
+         methods writes _data/_cap/_total_count; iteration is over _data (return iter(..) or generator form);
+         the subclass delegates to the base add exactly once (super() or explicit base call).
+Each group runs in isolation (a gap in one does not hide violations of the others).
 Declined: sampling statistics (uniformity); totals per status over histories.
 """
 import ast
